@@ -28,6 +28,7 @@ import (
 	"verifmc/pkt"
 	"verifmc/reg"
 	"verifmc/srv"
+	"verifmc/verifsched"
 )
 
 func init() {
@@ -75,6 +76,7 @@ type Sys struct {
 	start  uint32
 	end    uint32
 	dead   bool
+	broken bool
 	crash  bool // evaluate the crash/restart oracle after every live op
 }
 
@@ -114,7 +116,7 @@ func (s *Sys) Close() {
 }
 
 func (s *Sys) Ops() []Op {
-	if s.dead {
+	if s.dead || s.broken {
 		return nil
 	}
 	var ops []Op
@@ -146,6 +148,9 @@ func (s *Sys) Key() string {
 	if s.dead {
 		return "dead"
 	}
+	if s.broken {
+		return "property-violated (terminal)"
+	}
 	d := s.inst.VerifDump()
 	recs := d.Records
 	if s.conf.Prefill > 0 {
@@ -163,6 +168,9 @@ func (s *Sys) violate(prop, sig, what string) {
 	if prop != s.id {
 		return
 	}
+	// a state in which the property is already violated is not explored further: broken
+	// states can have unboundedly many successors (e.g. a bitmap that grows past the pool)
+	s.broken = true
 	s.r.Violate(prop+"/"+sig, fmt.Sprintf("range %s-%s: %s (history of %d ops)", s.conf.Start, s.conf.End, what, len(s.hist)), Case{s.conf, append([]Op{}, s.hist...)})
 }
 
@@ -220,6 +228,13 @@ func (s *Sys) Apply(op Op, live bool) (obs string) {
 		class += "/ok"
 		return "restart-ok"
 	}
+	if s.inst.VerifLocked() {
+		s.dead = true
+		if live {
+			s.violate("C02", "lock-left-held", "the range plugin mutex is held between requests: every later request blocks forever")
+		}
+		return "dead: mutex held"
+	}
 	req, err := dhcpv4.FromBytes(buildReq(op))
 	if err != nil {
 		panic(err)
@@ -248,6 +263,13 @@ func (s *Sys) Apply(op Op, live bool) (obs string) {
 			s.violate("C02", "panic", "handler panicked: "+pan)
 		}
 		return "PANIC"
+	}
+	if s.inst.VerifLocked() {
+		s.dead = true
+		if live {
+			s.violate("C02", "lock-left-held", "the range plugin returned with its mutex held: every later request blocks forever")
+		}
+		return "LOCK-LEFT-HELD"
 	}
 	known, was := s.first[op.MAC]
 	full := s.nBound() >= s.capacity()
@@ -458,7 +480,7 @@ func run(r *ev.Run, id string) {
 }
 
 var runSched = c16.SchedPart("C02", 4)
-var runCrashPoints = func(r *ev.Run) {}
+
 
 func sweeps(r *ev.Run, id string) {
 	thorough := !r.Quick()
@@ -556,3 +578,82 @@ func replayCase(r *ev.Run, id string, raw json.RawMessage) {
 		fmt.Printf("  step %d: %s -> %s ; %s\n", i, b, obs, s.Key())
 	}
 }
+
+// runCrashPoints: crash-point enumeration at statement granularity. For every history of up
+// to 3 requests (2 clients, with/without hostname), the LAST request is executed as a single
+// thread under the cooperative scheduler; before every statement of the instrumented handler
+// and storage code the lease database is copied and the real plugin is started on the copy.
+func runCrashPoints(r *ev.Run) {
+	if os.Getenv("VERIF_SCHED") != "1" {
+		r.Capped("statement-level crash points skipped: binary not built with the instrumentation overlay")
+		return
+	}
+	alpha := []Op{
+		{Kind: "discover", MAC: "020000000a01"},
+		{Kind: "request", MAC: "020000000a01", Host: hex.EncodeToString([]byte("h"))},
+		{Kind: "discover", MAC: "020000000b02fffe"},
+		{Kind: "request", MAC: "020000000c03"},
+	}
+	maxLen := 2
+	if !r.Quick() {
+		maxLen = 3
+	}
+	conf := Conf{Start: "10.0.0.10", End: "10.0.0.11", Lease: "60s"}
+	var rec func(prefix []Op)
+	rec = func(prefix []Op) {
+		if len(prefix) > 0 {
+			s := NewSys(r, "C03", conf, false)
+			for _, op := range prefix[:len(prefix)-1] {
+				s.Apply(op, false)
+			}
+			last := prefix[len(prefix)-1]
+			run := verifsched.NewRun(nil)
+			points := 0
+			run.OnResume = func() {
+				points++
+				img := fmt.Sprintf("%s.stmt%d", s.db, seq.Add(1))
+				if err := copyFile(s.db, img); err != nil {
+					panic(err)
+				}
+				if _, err := os.Stat(s.db + "-journal"); err == nil {
+					copyFile(s.db+"-journal", img+"-journal")
+				}
+				imgs = append(imgs, img)
+			}
+			pre, preProm := map[string]string{}, map[string]time.Time{}
+			for k, v := range s.first {
+				pre[k] = v
+			}
+			for k, v := range s.prom {
+				preProm[k] = v
+			}
+			run.Spawn("handler", func() { s.Apply(last, false) })
+			run.Start()
+			// evaluate the images outside the controlled run (Setup4 takes real locks), against
+			// what had been promised BEFORE the in-flight request: its reply was not sent yet
+			s.first, s.prom = pre, preProm
+			s.hist = append([]Op{}, prefix...)
+			for _, img := range imgs {
+				s.checkImage(img, last.MAC)
+				os.Remove(img)
+				os.Remove(img + "-journal")
+			}
+			imgs = imgs[:0]
+			r.Add("statement_crash_points", int64(points))
+			r.Eval(fmt.Sprintf("crash-points/len=%d", len(prefix)))
+			if points < 5 {
+				panic("crash-point engine error: handler executed without scheduling points")
+			}
+			s.Close()
+		}
+		if len(prefix) == maxLen {
+			return
+		}
+		for _, op := range alpha {
+			rec(append(append([]Op{}, prefix...), op))
+		}
+	}
+	rec(nil)
+}
+
+var imgs []string
